@@ -235,7 +235,7 @@ class Instruction(NamedTuple):
         lineno_width=3,
         mark_as_current=False,
         asm_format="classic",
-        instructions=[],
+        instructions=None,
     ):
         """
         Format instruction details for inclusion in disassembly output.
@@ -247,6 +247,9 @@ class Instruction(NamedTuple):
 
         ``mark_as_current`` inserts a '-->' marker arrow as part of the line.
         """
+        if instructions is None:
+            # Not a shared default list: it is mutated below.
+            instructions = []
         fields = []
         indexed_operand = frozenset(["name", "local", "compare", "free"])
         opcode = self.opcode
